@@ -5,7 +5,7 @@ from vf.props import _resolver_common as RC
 
 ID = "C06"
 RULE = (
-    "every sequence up to length L (quick 4, thorough 5; exhaustive) over a 31-letter alphabet of real citation objects "
+    "every sequence up to length L (quick 4, thorough 5; exhaustive) over a 32-letter alphabet of real citation objects "
     "(full A / A-variant / B same reporter+volume / C shared party / placeholder page, law, journal, journal with "
     "placeholder page, short by-antecedent/ambiguous/unique/foreign, supra unique/ambiguous/unknown, reference, id "
     "none/valid/far/non-numeric pin, unknown), plus citation lists extracted from generated documents; oracle: the "
